@@ -3,6 +3,7 @@ Driver for C01 (dispatch): stream `lk`
   lk <id> <n> <ep>*n <method> <pathhex> <ver|N> => ok:<epid>:<vars> | err:404 | err:405:<allow>
 -/
 import Driver.RouterCommon
+import DropshotModel.Path
 
 open Dropshot Dropshot.Proto Dropshot.RouterCommon
 
@@ -26,7 +27,16 @@ def handle (line : String) : String :=
       | some path, some v =>
         let (k, t, eps, err) := registerAll Node.empty raws 0 []
         if err.isSome || k ≠ raws.length then bad id "table-not-accepted-by-model" else
-        let segs := splitPath path
+        -- `lookup_route` begins with `input_path_to_segments` (split on '/', drop
+        -- empty segments, percent-decode each once, refuse dot-segments and
+        -- non-UTF-8): the C03 model, composed here with the trie walk
+        match Path.inputSegments (path.toUTF8.toList.map (·.toNat)) with
+        | .error _ =>
+          out id (i == "err:400") (b2s (i == "err:400")) "lk-400" "-" "err:400"
+        | .ok bsegs =>
+        match bsegs.mapM (fun b => utf8String (b.map (·.toUInt8))) with
+        | none => bad id "segment-not-utf8"
+        | some segs =>
         let res := Node.lookup t m segs v
         let model := encLookup res
         -- specification, from the flat list of endpoints
@@ -45,7 +55,7 @@ def handle (line : String) : String :=
         let versioned := eps.any fun e => !e.versions.isAll
         let kind := match res with
           | .ok _ => "hit" | .error .notFound => "404" | .error (.methodNotAllowed _) => "405"
-        let cls := s!"lk-{kind}-{sizeBucket eps.length}-{if hasWild then "w" else "n"}{if versioned then "v" else "u"}{if v.isNone then "N" else "V"}"
+        let cls := s!"lk-{kind}-{sizeBucket eps.length}-{if hasWild then "w" else "n"}{if versioned then "v" else "u"}{if v.isNone then "N" else "V"}{if path.any (· == '%') then "p" else ""}"
         out id (model == i) (b2s specOk) cls known model
       | _, _ => bad id "parse-request"
     | _, _ => bad id "parse-table"
